@@ -35,7 +35,7 @@ def oracle(ctx, deep):
         if a is None:
             continue
         order, titles, rest = wlgen.parse_pre(a)
-        line = wlgen.wlgen_line(c["list"], c["length"], c["sep"], c["cap"], c["budget"], c["words"])
+        line = wlgen.wlgen_line(c["list"], c["length"], c["sep"], c["cap"], c["budget"], c["words"], shadow=c.get("shadow"))
         base = {"case": c["meta"], "line": line, "observed": a}
         if "RETURNED-PASSWORD-CHANGED-BY-A-LATER-CALL" in a:
             ctx.violations.append(dict(base, finding_key="C05-held", what="a password returned earlier no longer has its tokens after a later Generate call on the same recipe (the returned value is not the caller's own)"))
@@ -120,5 +120,6 @@ def replay(v):
     r, _ = core.run_impl([line])
     print(line)
     print("->", r.get("r"))
+    core.replay_shared_list(v["line"])
     print("violation:", v["what"])
     return 1
